@@ -421,7 +421,25 @@ impl<CS: BbsCiphersuite> PoKSignature<BBSplus<CS>> {
         let api_id = CS::API_ID_BLIND;
 
         let U = proof.m_cap.len();
-        let M = disclosed_indexes.len() + disclosed_commitment_indexes.len() + U - 1 - L;
+        // M = R1 + R2 + U - 1 - L must not underflow; L + 1 and j + L + 1 must not overflow
+        let L_plus_1 = L.checked_add(1).ok_or_else(|| {
+            Error::PoKSVerificationError("L is too large".to_owned())
+        })?;
+        let M = (disclosed_indexes.len() + disclosed_commitment_indexes.len() + U)
+            .checked_sub(L_plus_1)
+            .ok_or_else(|| {
+                Error::PoKSVerificationError(
+                    "L is larger than the number of messages in the proof".to_owned(),
+                )
+            })?;
+        if disclosed_commitment_indexes
+            .iter()
+            .any(|j| j.checked_add(L_plus_1).is_none())
+        {
+            return Err(Error::PoKSVerificationError(
+                "Invalid disclosed commitment indexes".to_owned(),
+            ));
+        }
 
         let (message_scalars, generators) = prepare_parameters::<CS>(
             Some(disclosed_messages),
